@@ -519,6 +519,19 @@ def run(ctx, broken):
                    "model trace leaves the insertion-sort base case (len > 20). Branch counts below are measured on the model's ghost trace of the same inputs.")
     res["samples"] = [{"case": describe(c), "implementation": (il or "")[:100], "model": (ml or "")[:100]} for c, il, ml in list(zip(cases, impl, model))[:: max(1, len(cases) // 6)][:6]]
     res["extra"] = {"streams": streams, "model_branches(cases in which the branch ran)": branches, "pib_contract_cases": npib}
+    # ---- the comparator as the worker really passes it (the closure in Worker::run cannot be called directly): a
+    #      reduced run of the protocol histories (bulk style included: more than 20 matches with ties on score and
+    #      total length, negated-only patterns with score-0 matches next to placeholders); the order / placeholder
+    #      clauses of the C06 oracle count for this property; correspondence differences there belong to C06
+    import ncommon
+    import noracles
+    sub = ncommon.generic(ctx, noracles.c06, "", nhist=225 if tier == "quick" else 1500, extra_seed=18)
+    for f in sub["failures"]:
+        if f.get("class") in ("order", "placeholder", "crash"):
+            res["failures"].append(dict(f, cls_origin="protocol stream"))
+    res["evaluations"] += sub["evaluations"]
+    res["rule"] += (" Worker comparator in place: %d scheduled protocol histories (two columns, bulk extends with ties, negated-only patterns) - the snapshot order (score desc, "
+                    "total length asc, index asc) and the absence of placeholders are checked on the real Worker::run." % sub["evaluations"])
     return res
 
 
@@ -538,6 +551,9 @@ def broken_known(b, kf, failures):
 def replay(path):
     d = json.load(open(path))
     f = d.get("failure") or {}
+    if f.get("cls_origin") == "protocol stream":
+        import ncommon
+        return ncommon.replay(path)
     print(json.dumps({k: v for k, v in d.items() if k != "failure"}, indent=1)[:2000])
     print(f.get("what", "")[:1500])
     line = f.get("case")
